@@ -361,6 +361,16 @@ void h_wrappers(void) {
     QV_ASSERT(gh_lock_depth == 0, "C14: stack operations leave the lock released");
     qgrow_t *g = variant == 2 ? qgrow(ts ? QGROW_THREADSAFE : 0) : NULL;
     if (g != NULL) {
+        /* string pieces are added WITHOUT their terminator: exact byte total and exact concatenation */
+        char piece[3]; QV_IN(char, pc); QV_ASSUME(pc != 0); piece[0] = pc; piece[1] = 'z'; piece[2] = 0;
+        if (qgrow_addstr(g, piece)) {
+            QV_ASSERT(qgrow_size(g) == 1 && qgrow_datasize(g) == 2, "C09: a string piece contributes exactly its strlen bytes");
+            size_t tsz = 0;
+            uchar *ta = qgrow_toarray(g, &tsz);
+            if (ta != NULL) { QV_ASSERT(tsz == 2 && ta[0] == (uchar)pc && ta[1] == 'z', "C09: grow buffer flattens string pieces to exactly their characters"); free(ta); }
+            qgrow_clear(g);
+            QV_ASSERT(qgrow_size(g) == 0 && qgrow_datasize(g) == 0, "C09: clear empties the grow buffer");
+        }
         if (qgrow_add(g, e1, s1) && qgrow_add(g, e2, s2)) {
             uchar *a = qgrow_toarray(g, &sz);
             if (a != NULL) {
